@@ -8,7 +8,7 @@
    The collector switch is covered on a separate register-machine model, with the collector's safety as a
    hypothesis (C01's statement).  Optimisation levels and the header layout are compiler / ABI matters:
    for those the correspondence run (props/C18.py) is the check. *)
-From CelloV Require Import Generated Config ConfigProofs ConfigGlue.
+From CelloV Require Import Generated Config ConfigProofs.
 From Coq Require Import List Bool ZArith String.
 Import ListNotations.
 
@@ -246,12 +246,12 @@ Theorem source_bound_guards : list_eqb str3_eqb cfg_bound_guards audited_bound_g
 Proof. exact ConfigProofs.bound_guards_audited. Qed.
 Print Assumptions source_bound_guards.
 
-(* 11. the source: the places where the collector (CELLO_NGC) and the method cache (CELLO_CACHE) are
-       compiled in or out are the audited ones (a new one must be looked at); the cache wiring of
+(* 11. the source: the sites (file, function) where the collector (CELLO_NGC) is compiled in or out are the audited
+       ones (a new one must be looked at); the method cache switch is mentioned in Type.c only; the cache wiring of
        Type_Instance gives every class its own slot, all inside the CELLO_CACHE_NUM slots *)
 Theorem source_ngc_and_cache_sites :
   list_eqb pair_eqb cfg_ngc_blocks audited_ngc_blocks = true /\
-  list_eqb pair_eqb cfg_cache_uses audited_cache_uses = true /\
+  list_eqb String.eqb cfg_cache_files audited_cache_files = true /\
   nodupb (map fst cfg_cache_wiring) = true /\
   forallb (fun w : nat * nat => andb (Nat.ltb (fst w) cello_cache_num) (Nat.ltb (snd w) (List.length cfg_class_names))) cfg_cache_wiring = true /\
   List.length cfg_cache_wiring = cello_cache_num.
@@ -301,112 +301,3 @@ Theorem source_destructors_guard_forwarded_del :
   list_eqb str4_eqb cfg_del_forwards audited_del_forwards = true.
 Proof. exact ConfigProofs.del_forwards_audited. Qed.
 Print Assumptions source_destructors_guard_forwarded_del.
-
-(* ================================================================================================
-   Hypotheses discharged from what other properties prove (coq/ConfigGlue.v).  The modules of the other
-   properties are used qualified. *)
-
-(* G1 (C08). Cache on (the wiring generated from Type_Instance, CELLO_CACHE_NUM cache words) and cache off (no
-   wiring, no cache words) in C08's dispatch model of Type.c: every history of lookups from a cold type
-   succeeds in both and returns the same list — the instance the type declares for each class.  No hypothesis
-   left: NoDup / bound of the wiring are computed facts about the source *)
-Theorem cache_on_off_agree_for_the_generated_wiring :
-  forall (cn : Dispatch.cls -> String.string) (D : list (String.string * Dispatch.inst))
-         (h : list (Dispatch.kind * Dispatch.cls)),
-  exists Ton Toff,
-    Dispatch.run_history cn cfg_cache_wiring (Dispatch.cold_type cello_cache_num D) h
-      = Some (Ton, map (fun kc => DispatchProofs.dspec cn D (snd kc)) h) /\
-    Dispatch.run_history cn [] (Dispatch.cold_type 0 D) h
-      = Some (Toff, map (fun kc => DispatchProofs.dspec cn D (snd kc)) h).
-Proof. exact ConfigGlue.cache_on_off_agree_for_the_generated_wiring. Qed.
-Print Assumptions cache_on_off_agree_for_the_generated_wiring.
-
-(* G2 (C08). C08's invariant of a type record implies the cache-soundness hypothesis (`cache_ok` / `types_ok`) of
-   theorems 1-3c, for the same cache words and the declaration read by class identity (classes with pairwise
-   distinct names, the condition C08 itself needs for that reading) *)
-Theorem c08_invariant_gives_sound_caches :
-  forall (cn : Dispatch.cls -> String.string) (dl : list (Dispatch.cls * Dispatch.inst)) (ncache : nat) (T : Dispatch.trec),
-  (forall c c', In c' (map fst dl) -> cn c' = cn c -> c' = c) ->
-  DispatchProofs.inv cn cfg_cache_wiring ncache (map (fun d => (cn (fst d), snd d)) dl) T ->
-  cache_ok (mkTy (Dispatch.cache T) dl).
-Proof. exact ConfigGlue.c08_invariant_gives_sound_caches. Qed.
-Print Assumptions c08_invariant_gives_sound_caches.
-
-(* G3 (C08). Hence after ANY history of lookups run by C08's model from the cold type a declaration builds, the
-   cache words satisfy the soundness hypothesis, and the results are what a plain scan returns *)
-Theorem sound_caches_after_every_lookup_history :
-  forall (cn : Dispatch.cls -> String.string) (dl : list (Dispatch.cls * Dispatch.inst)) (h : list (Dispatch.kind * Dispatch.cls)),
-  (forall c c', In c' (map fst dl) -> cn c' = cn c -> c' = c) ->
-  exists T' r, Dispatch.run_history cn cfg_cache_wiring (Dispatch.type_of_decl cn cello_cache_num dl) h = Some (T', r) /\
-               cache_ok (mkTy (Dispatch.cache T') dl) /\
-               r = map (fun kc => scan dl (snd kc)) h.
-Proof. exact ConfigGlue.sound_caches_after_every_lookup_history. Qed.
-Print Assumptions sound_caches_after_every_lookup_history.
-
-Example sound_caches_after_every_lookup_history_nonvacuous :
-  forall c c' : nat, In c' (map fst [(11, 7); (10, 9)]) ->
-    (fun k => if Nat.eqb k 11 then "Len" else if Nat.eqb k 10 then "Hash" else "Other")%string c' =
-    (fun k => if Nat.eqb k 11 then "Len" else if Nat.eqb k 10 then "Hash" else "Other")%string c -> c' = c.
-Proof.
-  intros c c' [H | [H | []]]; subst; simpl;
-    destruct (Nat.eqb c 11) eqn:E1; destruct (Nat.eqb c 10) eqn:E2; intro H; try discriminate;
-    try (apply PeanoNat.Nat.eqb_eq in E1; congruence); try (apply PeanoNat.Nat.eqb_eq in E2; congruence).
-Qed.
-
-(* G4 (C01). The collector C01 models (mark phase of GC.c with the switches read off the source, abstract sweep),
-   run on the translation of the register machine's heap into C01's heap graph (nodes = bound addresses as
-   aligned words, contents = the stored references as words of a plain struct, every node registered, none
-   root-flagged, stack = the registers, no TLS), is `collector_safe`: by C01's collect_safe and preservation of
-   reachability under the translation *)
-Theorem collector_safe_for_the_modelled_collector : collector_safe c01_collect.
-Proof. exact ConfigGlue.c01_collect_safe. Qed.
-Print Assumptions collector_safe_for_the_modelled_collector.
-
-(* G5 (C01). Collector transparency WITHOUT hypothesis for that collector: whatever the gc flag of the two
-   configurations, the program observes the same values *)
-Theorem collector_transparent_for_the_modelled_collector :
-  forall (ops : list gop) (s : gstate) (c1 c2 : config),
-  snd (grun_cfg c1 c01_collect 0 ops s) = snd (grun_cfg c2 c01_collect 0 ops s).
-Proof. exact ConfigGlue.collector_transparent_for_c01. Qed.
-Print Assumptions collector_transparent_for_the_modelled_collector.
-
-(* the modelled collector is not the identity: it frees three of four bindings of this program *)
-Example collector_transparent_for_the_modelled_collector_nonvacuous :
-  let ops := [GAlloc 0 5%Z []; GAlloc 1 6%Z [(0, [])]; GDrop 0; GRead (1, [0]); GWrite (1, [0]) 9%Z;
-              GMove 2 (1, [0]); GRead (2, []); GAlloc 1 7%Z []; GRead (1, []); GDrop 2; GRead (1, []); GRead (1, [])] in
-  snd (grun true c01_collect 0 ops g_empty)
-    = [GUnit; GUnit; GUnit; GVal 5%Z; GUnit; GUnit; GVal 9%Z; GUnit; GVal 7%Z; GUnit; GVal 7%Z; GVal 7%Z] /\
-  List.length (gheap (fst (grun true c01_collect 0 ops g_empty))) = 1 /\
-  List.length (gheap (fst (grun false c01_collect 0 ops g_empty))) = 4.
-Proof. exact ConfigGlue.c01_collect_frees. Qed.
-
-(* G6 (C04/C12). The Array configuration theorem about the model that is compared with the library: from any
-   state of C04's memory-level model of Array.c satisfying its invariant, on a history (without len, which C04
-   states as an observation) on which no bounds test fires, EVERY build of Config.v computes the sequence
-   contents and the outcomes C04's model computes *)
-Theorem array_every_build_agrees_with_c04_model :
-  forall (h : list aop) (a : SeqModels.array Z) (c : config),
-  no_len h = true -> SeqModels.a_inv Z a -> afires h (SeqModels.a_abs Z a) = false ->
-  fst (arun c h (SeqModels.a_abs Z a)) = SeqModels.a_abs Z (fst (a_run a (map tr h))) /\
-  conv_all h (snd (arun c h (SeqModels.a_abs Z a))) = snd (a_run a (map tr h)).
-Proof. exact ConfigGlue.array_every_build_agrees_with_c04_model. Qed.
-Print Assumptions array_every_build_agrees_with_c04_model.
-
-(* G7 (C04/C12). On EVERY history the default build follows C04/C12's model: outside the contract the documented
-   exception and an unchanged array *)
-Theorem array_default_build_agrees_with_c04_model_on_every_history :
-  forall (h : list aop) (a : SeqModels.array Z),
-  no_len h = true -> SeqModels.a_inv Z a ->
-  fst (arun cfg_default h (SeqModels.a_abs Z a)) = SeqModels.a_abs Z (fst (a_run a (map tr h))) /\
-  conv_all h (snd (arun cfg_default h (SeqModels.a_abs Z a))) = snd (a_run a (map tr h)).
-Proof. exact ConfigGlue.array_default_build_agrees_with_c04_model_on_every_history. Qed.
-Print Assumptions array_default_build_agrees_with_c04_model_on_every_history.
-
-Example array_every_build_agrees_with_c04_model_nonvacuous :
-  let a := SeqModels.a_new Z [4; 5; 6]%Z in
-  let h := [APush 7; APushAt 9 (-1); AGet (-5); APopAt 1; AMem 9; ARem 9; APop; ASet (-1) 8]%Z in
-  no_len h = true /\ afires h (SeqModels.a_abs Z a) = false /\
-  arun (cfg_build true true true) h (SeqModels.a_abs Z a) =
-    ([4; 8]%Z, [ODone; ODone; OVal 4%Z; ODone; OVal 1%Z; ODone; ODone; ODone]) /\
-  SeqModels.a_abs Z (fst (a_run a (map tr h))) = [4; 8]%Z.
-Proof. exact ConfigGlue.c04_glue_example. Qed.
